@@ -485,81 +485,197 @@ func (c *Ctx) randomNumberRules(r *Report, prefix string) {
 	num := resultN(rcall, 0)
 	okRet, n := true, 0
 	detail := ""
-	for _, b := range gn.Blocks {
-		ret, ok := b.Instrs[len(b.Instrs)-1].(*ssa.Return)
-		if !ok || !isNilConst(ret.Results[1]) {
-			continue
+	// cmpEdge: the edge pb -> x is taken only when number.Cmp(&randomNumberMinimum) was +1
+	cmpEdge := func(pb, x *ssa.BasicBlock) bool {
+		iff, ok := pb.Instrs[len(pb.Instrs)-1].(*ssa.If)
+		if !ok || pb.Succs[0] == pb.Succs[1] {
+			return false
 		}
-		n++
-		v := ret.Results[0]
-		if phi, ok := v.(*ssa.Phi); ok {
-			for _, e := range phi.Edges {
-				if e != num && e != ssa.Value(phi) {
-					okRet = false
-					detail = "a returned number is not the one drawn from rand.Int"
-				}
-			}
-		} else if v != num {
-			okRet = false
-			detail = "a returned number is not the one drawn from rand.Int"
+		cond, ok := iff.Cond.(*ssa.BinOp)
+		if !ok {
+			return false
 		}
-		// dominated by cmp == 1
-		dom := false
-		for x := b; x != nil; x = x.Idom() {
-			if len(x.Preds) != 1 {
-				continue
+		cmp := staticCallTo(cond.X, "(*math/big.Int).Cmp")
+		k, _ := cond.Y.(*ssa.Const)
+		if cmp == nil || k == nil {
+			return false
+		}
+		kv, _ := constInt64(k.Value)
+		// Cmp yields -1, 0 or +1: on this edge, which of them can it have been? "greater" iff only +1
+		onTrue := pb.Succs[0] == x
+		only1 := true
+		any := false
+		for _, rv := range []int64{-1, 0, 1} {
+			var t bool
+			switch cond.Op {
+			case token.EQL:
+				t = rv == kv
+			case token.NEQ:
+				t = rv != kv
+			case token.LSS:
+				t = rv < kv
+			case token.LEQ:
+				t = rv <= kv
+			case token.GTR:
+				t = rv > kv
+			case token.GEQ:
+				t = rv >= kv
+			default:
+				only1 = false
 			}
-			pb := x.Preds[0]
-			iff, ok := pb.Instrs[len(pb.Instrs)-1].(*ssa.If)
-			if !ok || pb.Succs[0] == pb.Succs[1] {
-				continue
-			}
-			cond, ok := iff.Cond.(*ssa.BinOp)
-			if !ok {
-				continue
-			}
-			cmp := staticCallTo(cond.X, "(*math/big.Int).Cmp")
-			k, _ := cond.Y.(*ssa.Const)
-			if cmp == nil || k == nil {
-				continue
-			}
-			kv, _ := constInt64(k.Value)
-			// Cmp yields -1, 0 or +1: on this edge, which of them can it have been? "greater" iff only +1
-			onTrue := pb.Succs[0] == x
-			only1 := true
-			any := false
-			for _, rv := range []int64{-1, 0, 1} {
-				var t bool
-				switch cond.Op {
-				case token.EQL:
-					t = rv == kv
-				case token.NEQ:
-					t = rv != kv
-				case token.LSS:
-					t = rv < kv
-				case token.LEQ:
-					t = rv <= kv
-				case token.GTR:
-					t = rv > kv
-				case token.GEQ:
-					t = rv >= kv
-				default:
+			if t == onTrue {
+				any = true
+				if rv != 1 {
 					only1 = false
 				}
-				if t == onTrue {
-					any = true
-					if rv != 1 {
-						only1 = false
-					}
-				}
-			}
-			if any && only1 && cmp.Call.Args[0] == num && cmp.Call.Args[1] == ssa.Value(minG) {
-				dom = true
 			}
 		}
-		if !dom {
+		return any && only1 && cmp.Call.Args[0] == num && cmp.Call.Args[1] == ssa.Value(minG)
+	}
+	// nonNilEdge: the edge pb -> x is taken only when v was not nil
+	nonNilEdge := func(v ssa.Value) func(pb, x *ssa.BasicBlock) bool {
+		return func(pb, x *ssa.BasicBlock) bool {
+			iff, ok := pb.Instrs[len(pb.Instrs)-1].(*ssa.If)
+			if !ok || pb.Succs[0] == pb.Succs[1] {
+				return false
+			}
+			cond, ok := iff.Cond.(*ssa.BinOp)
+			if !ok || (cond.Op != token.EQL && cond.Op != token.NEQ) {
+				return false
+			}
+			if !(cond.X == v && isNilConst(cond.Y)) && !(cond.Y == v && isNilConst(cond.X)) {
+				return false
+			}
+			if cond.Op == token.NEQ {
+				return pb.Succs[0] == x
+			}
+			return pb.Succs[1] == x
+		}
+	}
+	// under: the program point (entering `to` from `from`, or anywhere in `to` when from is nil) lies behind an edge satisfying e
+	under := func(from, to *ssa.BasicBlock, e func(pb, x *ssa.BasicBlock) bool) bool {
+		start := to
+		if from != nil {
+			if e(from, to) {
+				return true
+			}
+			start = from
+		}
+		for x := start; x != nil; x = x.Idom() {
+			if len(x.Preds) == 1 && e(x.Preds[0], x) {
+				return true
+			}
+		}
+		return false
+	}
+	// nilOn: v is nil when control enters `to` from `from`: the nil constant, a value behind the nil edge of a
+	// test of it, or a merge of such values
+	nilEdge := func(v ssa.Value) func(pb, x *ssa.BasicBlock) bool {
+		nn := nonNilEdge(v)
+		return func(pb, x *ssa.BasicBlock) bool {
+			for i, s := range pb.Succs {
+				if s == x && len(pb.Succs) == 2 && pb.Succs[0] != pb.Succs[1] {
+					return nn(pb, pb.Succs[1-i])
+				}
+			}
+			return false
+		}
+	}
+	var nilOn func(v ssa.Value, from, to *ssa.BasicBlock, seen map[ssa.Value]bool) bool
+	nilOn = func(v ssa.Value, from, to *ssa.BasicBlock, seen map[ssa.Value]bool) bool {
+		if isNilConst(v) {
+			return true
+		}
+		if under(from, to, nilEdge(v)) {
+			return true
+		}
+		if ph, ok := v.(*ssa.Phi); ok {
+			if seen[ph] {
+				return true
+			}
+			seen[ph] = true
+			for i, e := range ph.Edges {
+				if !nilOn(e, ph.Block().Preds[i], ph.Block(), seen) {
+					return false
+				}
+			}
+			return true
+		}
+		return false
+	}
+	for _, b := range gn.Blocks {
+		ret, ok := b.Instrs[len(b.Instrs)-1].(*ssa.Return)
+		if !ok {
+			continue
+		}
+		// the ways this return is a success: the error result is nil, or is nil on some of the edges into the
+		// return's block (named results merged before a single return)
+		type entry struct {
+			v    ssa.Value
+			from *ssa.BasicBlock
+		}
+		var entries []entry
+		if isNilConst(ret.Results[1]) {
+			entries = append(entries, entry{ret.Results[0], nil})
+		} else if ephi, ok := ret.Results[1].(*ssa.Phi); ok && ephi.Block() == b {
+			for i, e := range ephi.Edges {
+				if c.nonNilError(e, nil, 0) {
+					continue
+				}
+				v := ret.Results[0]
+				if vphi, ok := v.(*ssa.Phi); ok && vphi.Block() == b {
+					v = vphi.Edges[i]
+				}
+				if !nilOn(e, b.Preds[i], b, map[ssa.Value]bool{}) {
+					okRet = false
+					detail = "cannot tell whether the return at " + c.InstrPos(ret) + " is a success"
+				}
+				entries = append(entries, entry{v, b.Preds[i]})
+			}
+		} else if !c.nonNilError(ret.Results[1], nil, 0) {
+			n++
 			okRet = false
-			detail = "a number can be returned without having been compared greater than randomNumberMinimum"
+			detail = "cannot tell whether the return at " + c.InstrPos(ret) + " is a success"
+		}
+		for _, en := range entries {
+			n++
+			// origins of the returned value through merges: the drawn number on a Cmp == 1 edge; nil only if
+			// the returned value itself was tested non-nil before the return
+			sawNil := false
+			seen := map[ssa.Value]bool{}
+			var walk func(v ssa.Value, from, to *ssa.BasicBlock)
+			walk = func(v ssa.Value, from, to *ssa.BasicBlock) {
+				switch t := v.(type) {
+				case *ssa.Phi:
+					if seen[t] {
+						return
+					}
+					seen[t] = true
+					for i, e := range t.Edges {
+						walk(e, t.Block().Preds[i], t.Block())
+					}
+					return
+				case *ssa.Const:
+					if t.IsNil() {
+						sawNil = true
+						return
+					}
+				}
+				if v != num {
+					okRet = false
+					detail = "a returned number is not the one drawn from rand.Int"
+					return
+				}
+				if !under(from, to, cmpEdge) {
+					okRet = false
+					detail = "a number can be returned without having been compared greater than randomNumberMinimum"
+				}
+			}
+			walk(en.v, en.from, b)
+			if sawNil && !under(en.from, b, nonNilEdge(en.v)) {
+				okRet = false
+				detail = "a nil number can be returned as a success"
+			}
 		}
 	}
 	r.Check(okRet && n > 0, rule, "security.GenerateRandomNumber: lower bound", c.Pos(gn.Pos()), fmt.Sprintf("%d success return(s), each of the drawn number on the number.Cmp(&min) == 1 edge", n), detail)
@@ -639,7 +755,7 @@ func (c *Ctx) randomNumberRules(r *Report, prefix string) {
 					lsh, sub = sub, lsh
 				}
 				if lsh.Call.StaticCallee().Name() == "Lsh" && sub.Call.StaticCallee().Name() == "Sub" && dominatesInstr(lsh, sub) &&
-					isOne(lsh.Call.Args[1]) && sub.Call.Args[1] == ssa.Value(bd.g) && isOne(sub.Call.Args[2]) {
+					isOne(lsh.Call.Args[1]) && (sub.Call.Args[1] == ssa.Value(bd.g) || sub.Call.Args[1] == ssa.Value(lsh)) && isOne(sub.Call.Args[2]) {
 					if k, ok := lsh.Call.Args[2].(*ssa.Const); ok {
 						if kv, _ := constInt64(k.Value); kv == bd.reps*4 {
 							okC, n = true, 1
